@@ -46,7 +46,8 @@ var initials = map[string]string{
 		"0 @F2@ FAM\n1 HUSB @I2@\n1 WIFE @I3@\n",
 	// the child's own marriage family precedes the family it was born into
 	"two-generations": "0 @I1@ INDI\n1 NAME Ann /Ash/\n1 BIRT\n2 DATE 1 Jan 1850\n1 FAMS @F2@\n" +
-		"0 @I2@ INDI\n1 NAME Bob /Birch/\n1 BIRT\n2 DATE 2 Feb 1848\n1 FAMS @F2@\n" +
+		// Bob's name is written twice and he has an empty death record, neither as the last line
+		"0 @I2@ INDI\n1 NAME Bob /Birch/\n1 NAME Bob /Birch/\n1 DEAT\n1 BIRT\n2 DATE 2 Feb 1848\n1 FAMS @F2@\n" +
 		"0 @I3@ INDI\n1 NAME Cy /Birch/\n1 BIRT\n2 DATE 3 Mar 1875\n1 FAMS @F1@\n1 FAMC @F2@\n" +
 		"0 @F1@ FAM\n1 HUSB @I3@\n" +
 		"0 @F2@ FAM\n1 HUSB @I2@\n1 WIFE @I1@\n1 CHIL @I3@\n",
@@ -407,6 +408,14 @@ func ops() []operation {
 			gedcom.DeepCopy(n, other)
 			gedcom.Filter(n, other, func(n gedcom.Node) (gedcom.Node, bool) { return n, true })
 			gedcom.Flatten(other, n)
+			// every built-in filter (they inspect, drop and rewrite children of the nodes they are shown)
+			for _, fn := range []gedcom.FilterFunction{
+				gedcom.WhitelistTagFilter(gedcom.TagName, gedcom.TagIndividual, gedcom.TagFamily), gedcom.BlacklistTagFilter(gedcom.TagBirth),
+				gedcom.OfficialTagFilter(), gedcom.SimpleNameFilter(gedcom.NameFormatGEDCOM), gedcom.OnlyVitalsTagFilter(),
+				gedcom.RemoveEmptyDeathTagFilter(), gedcom.RemoveDuplicateNamesFilter(),
+			} {
+				gedcom.Filter(n, other, fn)
+			}
 		}
 		return true
 	})
